@@ -435,7 +435,7 @@ func Run(r *ev.Run) {
 	r.Rule = "ordered pairs (A,B) of 4 distinct clients whose storage key pair / symmetric key are rotated 0,1,2,3 times in interleaved order (HMAC key of the 3-rotation client rotated at the last step) on a v1 directory keystore, a v2 in-memory keystore and a v2 directory keystore; " +
 		"at every step every protect entry point (library, registry, translator incl. searchable, column encryptor chain incl. masking columns) protects fresh values carrying a unique marker MK<16 hex> (plus 1- and 5-byte values judged by equality) under every client; " +
 		"every reveal-type operation is run under every other client on those values (quick: on the final key state and a seeded third of the intermediate states; thorough: every state, three value sizes); " +
-		"plus: pairwise comparison of all key material read back per client after every step; relocation of every stored key file / key ring of A to every name of B; token stores (memory, BoltDB, each plain and wrapped with encryption) detokenized under B; every RPC of the gRPC service interfaces (by reflection) and every route of the HTTP API (by reflection over the gin engine) called with TLS identity A and a forged request identity B; " +
+		"plus: pairwise comparison of all key material read back per client after every step; relocation of every stored key file / key ring of A to every name of B; token stores (memory, BoltDB, each plain and wrapped with encryption) detokenized under B; every RPC of the gRPC service interfaces (by reflection) and every route of the HTTP API (by reflection over the gin engine) called with TLS identity A and a forged request identity B; the gRPC server as grpc_api.NewServer builds and registers it (identity from the TLS connection, tokenizer configured) on a unix socket, every RPC family called through the generated clients by every ordered pair of three certificate identities with the request's client_id empty / own / the other certificate's / an ordinary client's / an id without keys; " +
 		"a case is non-trivial when the same operation reveals the value to its owner; distinct = (keystore, producing entry point, reveal operation, rotations of owner, rotations of requester, outcome) tuples and the per-part class keys"
 	r.Assumptions = []string{
 		"crypto library replaced by the pure-Go gothemis stand-in (Secure Cell Seal / Secure Message / EC keys); 'cannot be decrypted with another key/context' is the stand-in's AEAD contract",
@@ -624,6 +624,7 @@ func Run(r *ev.Run) {
 	part(r, "token-stores", func() { tokenStores(r, envs, rng) })
 	part(r, "identity-override-grpc", func() { identityOverrideGRPC(r, envs[0], rng) })
 	part(r, "identity-override-http", func() { identityOverrideHTTP(r, envs[0], rng) })
+	part(r, "grpc-server-tls", func() { grpcServerTLS(r) })
 
 	// --- non-vacuity ----------------------------------------------------------------------------
 	r.RequireAtLeast("owner_control_revealed", 500)
